@@ -3046,20 +3046,38 @@ impl<'a, R: FileManager> FrontendCtx<'a, R> {
         }
     }
     fn extract_union(&self, tp: Runtype) -> Result<Vec<Runtype>, DiagnosticInfoMessage> {
+        self.extract_union_visiting(tp, &mut vec![])
+    }
+
+    // `visiting`: the names being unfolded; aliases that only name each other
+    // (`type K1 = K2; type K2 = K1`) are reported instead of being followed forever
+    fn extract_union_visiting(
+        &self,
+        tp: Runtype,
+        visiting: &mut Vec<RuntypeUUID>,
+    ) -> Result<Vec<Runtype>, DiagnosticInfoMessage> {
         match tp.kind {
             RuntypeKind::AnyOf(v) => {
                 let mut vs = vec![];
                 for item in v {
-                    let extracted = self.extract_union(item)?;
+                    let extracted = self.extract_union_visiting(item, visiting)?;
                     vs.extend(extracted);
                 }
                 Ok(vs)
             }
             RuntypeKind::Ref(r) => {
+                if visiting.contains(&r) {
+                    return Err(DiagnosticInfoMessage::CannotResolveRefInExtractUnion(r));
+                }
                 let v = self.partial_validators.get(&r);
                 let v = v.and_then(|it| it.clone());
                 match v {
-                    Some(v) => self.extract_union(v),
+                    Some(v) => {
+                        visiting.push(r);
+                        let res = self.extract_union_visiting(v, visiting);
+                        visiting.pop();
+                        res
+                    }
                     None => Err(DiagnosticInfoMessage::CannotResolveRefInExtractUnion(r)),
                 }
             }
